@@ -43,6 +43,18 @@ def handle (fn : String) : Handler := fun a _impl =>
         let okN := (List.range p.n).all fun j =>
           (Spec.centred (Spec.imod (ph.getD j 0 - plc.getD j 0) Q) Q).natAbs ≤ B
         some (model, if okN then exactDec p else "RELFAIL(fresh CKKS noise above the deterministic bound)")
+  | "fresh_budget", [scheme, n, qs, t, sk, ntt, cf, polys] =>
+    -- exact budget by definition, and the lower bound implied by the deterministic fresh-noise bound
+    let p := parseCt scheme n qs t sk ntt cf polys
+    match mkLevel p.scheme p.n p.qs p.t with
+    | .error e => some ("ERR:" ++ e.toStr, "ERR:" ++ e.toStr)
+    | .ok l =>
+      let Q := Spec.prodL p.qs
+      let ph := exactPhase l p.qs p.sk p.ct
+      let b := Spec.budget (p.scheme = .bfv) p.t Q ph
+      let lower : Int := (bitCount Q : Int) - (bitCount (p.t * (freshBound p.n + 1)) : Int) - 1
+      some (fR toString (noiseBudget l p.sk p.ct),
+            if (b : Int) ≥ lower then toString b else s!"RELFAIL(fresh budget {b} below the worst-case bound {lower})")
   | _, _ => none
 
 end Drv.C01
